@@ -327,10 +327,28 @@ impl Cli {
                 }
             }
         }
-        let args = base_args(c, &file_arg, arg_label, &fake);
+        let mut args = base_args(c, &file_arg, arg_label, &fake);
         let bin = if c.tool == 0 { &solve_bin } else { &iccma_bin };
+        // one external-solver case in three names the solver by its bare name (found through PATH) and runs
+        // from a working directory that happens to contain an entry of that name (a checkout, a log directory)
+        let mut run_from: Option<(std::path::PathBuf, std::path::PathBuf)> = None;
+        if c.tool == 0 && c.external && c.case_mask % 3 == 1 {
+            if let Some(i) = args.iter().position(|a| a == "--external-sat-solver") {
+                let exe = std::path::PathBuf::from(&args[i + 1]);
+                if let (Some(dir), Some(name)) = (exe.parent(), exe.file_name()) {
+                    let cwd = fake.dir.join("cwd with shadow");
+                    let _ = std::fs::create_dir_all(cwd.join(name));
+                    args[i + 1] = name.to_string_lossy().to_string();
+                    run_from = Some((cwd, dir.to_path_buf()));
+                    rec.class("external-solver-by-bare-name-with-a-same-named-entry-in-the-working-directory");
+                }
+            }
+        }
         rec.eval();
-        let out = run_cli(bin, &args, Duration::from_secs(120));
+        let out = match &run_from {
+            Some((cwd, dir)) => repobin::run_cli_in(bin, &args, Duration::from_secs(120), Some(cwd), Some(dir)),
+            None => run_cli(bin, &args, Duration::from_secs(120)),
+        };
         if let Some(mut f) = feeder {
             // the feeder ends when the tool has read (or refused to open) the pipe; do not leave it behind
             if !matches!(f.try_wait(), Ok(Some(_))) {
